@@ -314,6 +314,14 @@ def second_call_cases():
     for passed in ("def-local", "def-global"):
         for body in TWICE_BODIES[:3]:
             out.append(Case(body, [Var("x", "g", "x = 30"), Var("g", "g", "g = 7")], 1, {"named-callable"}, group="twice", passed=passed))
+    # the free variables of a captured helper are captured values too (frozen with the helper's own snapshot, FC5):
+    # rebinding them between two calls that use the same helper object must show in the second query
+    for passed in ("inline", "def-local"):
+        for sc in ("g", "l1"):
+            vs = [Var("G", sc, "G = 7", after="G = 'REBOUND'", mid="G = 70"),
+                  Var("h", sc, "def h(a):\n    return a + G", "h = 'REBOUND'", helper=(["a"], "a + G"), byname=True)]
+            out.append(Case("lambda e: h(e.a) + G", vs, 1, {"second-call", "helper-free-variable"}, group="twice",
+                            passed=passed, twice=True))
     return out
 
 
